@@ -6,10 +6,14 @@ def main():
     base = json.load(open("/root/.vp/BASELINE.json")) if os.path.exists("/root/.vp/BASELINE.json") else None
     fd, junit = tempfile.mkstemp(suffix=".xml"); os.close(fd)
     env = dict(os.environ); env.pop("DENDROPY_VERIF", None)
+    repo = "/repo"
+    if "--repo" in sys.argv:
+        repo = sys.argv[sys.argv.index("--repo") + 1]
+        env["PYTHONPATH"] = os.path.join(repo, "src")
     par = ["-n", os.environ.get("BASELINE_JOBS", "12")] if "--serial" not in sys.argv else []
     cmd = ["/venv/bin/python", "-m", "pytest", "-ra", "-q", "-p", "no:cacheprovider", "--timeout=900",
            "--continue-on-collection-errors", "--junitxml=" + junit] + par
-    p = subprocess.run(cmd, cwd="/repo", env=env, stdout=subprocess.PIPE, stderr=subprocess.STDOUT, text=True)
+    p = subprocess.run(cmd, cwd=repo, env=env, stdout=subprocess.PIPE, stderr=subprocess.STDOUT, text=True)
     passed = set()
     try:
         for tc in ET.parse(junit).getroot().iter("testcase"):
